@@ -186,6 +186,18 @@ claim(
     "DESIGN.md section 4, C08",
 )
 
+claim(
+    "C14",
+    "inventory of process-wide mutable stores (module / class level containers, memoised functions) with a must-reset-at-entry rule on the CFG of every "
+    "entry point; call-graph rule that every random draw follows a literal re-seed inside the allocation; order-taint rules for sets feeding the serialiser",
+    "Decides clauses a-c of DESIGN.md 4/C14: every store written during compilation is reset before the work on every path of process(), convert() and "
+    "convert_bytes(), or is in the reviewed history-safe table; the hill-climb generator is re-seeded with a literal before any draw of an allocation and "
+    "nothing else is random; sets that reach written output are sorted with a total key and never contribute their iteration index (F12, F13 found and "
+    "fixed). Does NOT decide byte-identical outputs.",
+    "Trusted: the history-safe table (four entries, one reason each); name-based detection of container mutation; dict insertion order (language guarantee).",
+    "DESIGN.md section 4, C14",
+)
+
 
 def build():
     checks = []
